@@ -287,6 +287,17 @@ def r12_8(ctx):
 
 
 def run(ctx):
+    ctx.rule("R12.9", "the safe wrappers reach the unchecked primitives only after a bounds test that cannot overflow (shared with R11.2): no subtendril / pop reads outside the buffer")
+    def bounds():
+        from . import C11 as c11
+        before = len(ctx.obs)
+        c11.r11_2(ctx)
+        for o in ctx.obs[before:]:
+            if o["rule"] == "R11.2":
+                o["rule"] = "R12.9"
+        for k in [k for k in ctx.floors if k.startswith("R11.2.")]:
+            ctx.floors["R12.9." + k[len("R11.2."):]] = ctx.floors.pop(k)
+    ctx.guard("R12.9", "bounds", bounds)
     ctx.rule("R12.8", "no panic site inside Buf32 functions while a Vec aliasing the buffer is alive")
     ctx.guard("R12.8", "alias-window", lambda: r12_8(ctx))
     ctx.rule("R12.7", "push_bytes_without_validating lays the appended bytes out identically in its inline and heap branches; the heap write starts at (stored length - drop_left)")
